@@ -841,10 +841,52 @@ pub fn c04_prefix() {
     let want = if op == 0 { Value::Bool(k % 2 == 0) } else { Value::Int(if k % 2 == 0 { 5 } else { -5 }) };
     check!(got == Ok(want), "k prefix operators apply the operator k times");
 }
+/// C04 visitor half: a binary / ternary rule builds exactly one call of its operator over its two / three operands.
+pub fn c04_binary() {
+    let (op, ls, rs): (u8, u8, u8) = (any(), any(), any());
+    crate::sym::assume(op <= 12 && ls <= 2 && rs <= 2);
+    let table: [(&str, &str); 13] = [("<", "_<_"), ("<=", "_<=_"), (">", "_>_"), (">=", "_>=_"), ("==", "_==_"), ("!=", "_!=_"), ("in", "@in"),
+        ("*", "_*_"), ("/", "_/_"), ("%", "_%_"), ("+", "_+_"), ("-", "_-_"), ("?", "_?_:_")];
+    let (text, name) = table[op as usize];
+    let shape = |k: u8, var: &str, lit: i64| -> (String, i64, bool) {
+        match k {
+            0 => (var.to_string(), if var == "x" { 7 } else { 3 }, false),
+            1 => (format!("-{}", var), if var == "x" { -7 } else { -3 }, true),
+            _ => (format!("{}", lit), lit, false),
+        }
+    };
+    let (l, lv, lneg) = shape(ls, "x", 11);
+    let (r, rv, rneg) = shape(rs, "y", 5);
+    let mut ctx = Context::default();
+    ctx.add_variable_from_value("x", Value::Int(7));
+    ctx.add_variable_from_value("y", Value::Int(3));
+    let src = if text == "?" { format!("{} < {} ? {} : {}", l, r, l, r) } else if text == "in" { format!("{} in [{}]", l, r) } else { format!("{} {} {}", l, text, r) };
+    let program = Program::compile(&src).expect("compiles");
+    let refs = program.references();
+    let mut got: Vec<&str> = refs.functions();
+    got.sort();
+    got.dedup();
+    let mut want: Vec<&str> = vec![name];
+    if text == "?" {
+        want.push("_<_");
+    }
+    if lneg || rneg {
+        want.push("-_");
+    }
+    want.sort();
+    check!(got == want, "the tree contains exactly the operator written and the operands' own operators");
+    let want_val = match text {
+        "<" => Value::Bool(lv < rv), "<=" => Value::Bool(lv <= rv), ">" => Value::Bool(lv > rv), ">=" => Value::Bool(lv >= rv),
+        "==" => Value::Bool(lv == rv), "!=" => Value::Bool(lv != rv), "in" => Value::Bool(lv == rv),
+        "*" => Value::Int(lv * rv), "/" => Value::Int(lv / rv), "%" => Value::Int(lv % rv), "+" => Value::Int(lv + rv), "-" => Value::Int(lv - rv),
+        _ => Value::Int(if lv < rv { lv } else { rv }),
+    };
+    check!(program.execute(&ctx) == Ok(want_val), "the operator is applied to (left, right)");
+}
 /// C04 visitor half: a chain of n operands under && / || keeps them in source order.
 pub fn c04_chain() {
     let (op, n): (u8, u8) = (any(), any());
-    crate::sym::assume(op <= 1 && (1..=40).contains(&n));
+    crate::sym::assume(op <= 1 && (1..=64).contains(&n));
     let log: Arc<Mutex<Vec<i64>>> = Arc::new(Mutex::new(Vec::new()));
     let mut ctx = Context::default();
     {
@@ -1245,7 +1287,8 @@ crate::replay_only! {
     #[kani::unwind(2)] c19_unsupported_nodes: "off", "same body", "same";
     #[kani::unwind(2)] c18_structure: "off", "lists, maps and bytes through Value::json against the documented document shape", "lists of 0-3, thirteen key sets, byte strings of 0-6";
     #[kani::unwind(2)] c04_prefix: "off", "runs of 1-9 prefix ! / - over a literal or a variable through Program::compile + execute", "k in 1..9";
-    #[kani::unwind(2)] c04_chain: "off", "chains of 1-40 logging operands under && / ||", "n in 1..40";
+    #[kani::unwind(2)] c04_binary: "off", "x OP y for the twelve binary operator texts and ?: with operands of three shapes: references() and value", "13 operators x 9 shape pairs";
+    #[kani::unwind(2)] c04_chain: "off", "chains of 1-64 logging operands under && / ||", "n in 1..64";
     #[kani::unwind(2)] c12_literal: "off", "a string / bytes literal token through Program::compile + execute against an independent decoder of the CEL literal syntax", "token text of up to 24 characters taken from the vector";
     #[kani::unwind(2)] c13_literal: "off", "int / uint literals of every sign, radix and magnitude through Program::compile + execute", "text built from the vector";
     #[kani::unwind(2)] c13_double_literal: "off", "eight double literal texts", "fixed list";
